@@ -96,6 +96,9 @@ def values_at(axis, level, n):
             out.append([{'mods': [['Oxidation', 1]], 'targets': ['M']}, {'mods': [['1.5', 1]], 'targets': ['K']}])
             out.append([{'mods': [['Oxidation', 1]], 'targets': ['S', 'K']}, {'mods': [['1.5', 1]], 'targets': ['K']}])
             out.append([{'mods': [['Formula:C2H2O', 1]], 'targets': ['E', 'P', 'N-Term']}, {'mods': [['10', 1]], 'targets': ['P', 'N-Term']}])
+            # one rule carrying two (three) modifications
+            out.append([{'mods': [['1', 1], ['3', 1]], 'targets': ['K']}])
+            out.append([{'mods': [['Oxidation', 1], ['Formula:C2H2O', 2], ['1.5', 1]], 'targets': ['K', 'N-Term']}])
         return out
     if axis == 'iv':
         mls = modlists(2) if level <= 2 else modlists(3)[:3]
@@ -173,8 +176,19 @@ def tol_for(mono, precision):
     return t
 
 
+def _prime(p):
+    """history: the process has been asked for compositions with multipliers, for labelled and rounded values of the same
+    modifications before (all of them queries; none of them may change a later answer)"""
+    for fn in (lambda: p.comp('[Formula:C2H2O]^2?PEK'), lambda: p.mod_comp(p.Mod('Formula:C2H2O', 3)),
+               lambda: p.mod_comp(p.Mod('Acetyl', 2)), lambda: p.mass('<13C>[Formula:C2H2O]^2?PEK'),
+               lambda: p.mod_mass('Oxidation', False, 1), lambda: p.mass('PEK[Oxidation]^2', monoisotopic=False, precision=0),
+               lambda: p.mod_comp(p.Mod('Glycan:Hex', 2)), lambda: p.apply_isotope_mods_to_composition('C2H2O', ['13C'])):
+        lib.call(fn)
+
+
 def check(case, ctx):
     p = lib.pt()
+    _prime(p)
     if case['kind'] == 'dev':
         slots = case['slots']
         shape = {k: v for k, v in slots.items() if k in SHAPE_AXES}
